@@ -34,7 +34,7 @@ TRUSTED_BASE = [
 ]
 MANIFEST = {
     "technique": "Lean 4 proof (simulation between the lexer runs under two delimiter sets; invariant of an LRU-bounded memo over all call histories; refinement of the cached process to a cache-free one) + translator-generated obligations on cache keys and re.escape flow + differential correspondence and rendering equality under random delimiter sets and interleaved environments",
-    "text": "tokenize_delim_independent: for every piece list and any two delimiter sets the token streams agree up to positions (the parser's input is delimiter-free). memo_transparent / memo_bounded: an lru_cache of any size returns f(k) on every call of every history and never exceeds maxsize, provided equal keys give equal results; memo_stale_counterexample shows the proviso is needed. env_isolation: the process with the 128-entry lexer and parser caches computes every parse from the asked environment's own delimiters and current tags/filters/tolerance, for every interleaving of creations, mutations and parses. lexer_cache_key_complete, all_delims_escaped, lex_patterns_pinned, parser_cache_key_identity, implicit_env_key_complete: the provisos hold of this tree (re-decided from the source on every run).",
+    "text": "tokenize_delim_independent: for every piece list and any two delimiter sets the token streams agree up to positions (the parser's input is delimiter-free). memo_transparent / memo_bounded: an lru_cache of any size returns f(k) on every call of every history and never exceeds maxsize, provided equal keys give equal results; memo_stale_counterexample shows the proviso is needed. env_isolation: the process with the 128-entry lexer and parser caches computes every parse from the asked environment's own delimiters and current tags/filters/tolerance, for every interleaving of creations, mutations and parses. implicit_env_isolation / implicit_env_bounded: liquid.Template() gives the k-th call an environment built from the k-th call's arguments, for every interleaving and with evictions from its 10-entry cache. lexer_cache_key_complete, all_delims_escaped, lex_patterns_pinned, parser_cache_key_identity, implicit_env_key_complete: the provisos hold of this tree (re-decided from the source on every run).",
     "note": "Trusted: Lean kernel, the hand models, the AST emitter, the harness; Python `re` matching of the assembled source is measured, not proved. Fixed in the tree: a tag_end_string that starts with a word character (or '#') directly after a tag name. Also fixed: a liquid-tag comment marker that starts with a word character ('a#'). Known finding: comment_start_string '{if' yields the marker 'if'.",
 }
 ASSUMPTIONS = [
